@@ -50,6 +50,7 @@ package disasm
 //@   ensures @err_no_result {C16} result1 != nil ==> len(result0) == 0
 //@   ensures @names {C16} forall(j, 0, len(result0), has(p.SyscallNumbers, result0[j].Num) && p.SyscallNumbers[result0[j].Num] == result0[j].Name)
 //@   ghost let sc0 = syscalls at loop 1 body
+//@   assert @scope_now {C16} forall(j, 0, len(instructions), exists(m, 0, ghost.pos, instructions[j] == ghost.lines[m] && forall(q, m, ghost.pos, !prefixof("TEXT", ghost.lines[q])))) at before call parseX86_64#1
 //@   assert @same_function {C16} exists(m, 0, ghost.pos, contains(ghost.lines[m], syscall.Assembly) && forall(q, m, ghost.pos, !prefixof("TEXT", ghost.lines[q]))) at after assign syscalls#1
 //@   assert @append_only {C16} len(syscalls) >= len(sc0) && forall(j, 0, len(sc0), syscalls[j] == sc0[j]) at loop 1 end
 //@   loop 1
